@@ -413,7 +413,7 @@ def check(ctx, rep):
         members = {"": "0", "docs": "1", "docs/gophermap.bak": "2", "docs/a.txt": "3", "docs/gophermaps": "4", "top.txt": "5", "d": "6", "d/e": "7", "d/e/f.txt": "8"}
         missing = ["docs/gophermap", "docs/a", "nodir/x", "top.txt/x", "d/e/g.txt", "zzz", "Docs/a.txt", "docs/A.TXT"]
         param = gi.params[1] if len(gi.params) > 1 else "fspath"
-        histories = [set(), {"docs/gophermap"}, {"docs/a", "d/e/g.txt", "top"}, {"nodir"}]
+        histories = [set(), {"docs/gophermap"}, {"docs/a", "d/e/g.txt", "top"}, {"nodir"}, {"doc", "d/e/f"}]
         problems = []
         n = 0
         for inv in histories:
